@@ -36,7 +36,7 @@ CfgOf(j) ==
          plan |-> [t \in {<<r.o, r.k>> : r \in RangeOf(j.plan)} |->
                      LET r == CHOOSE r \in RangeOf(j.plan) : r.o = t[1] /\ r.k = t[2]
                      IN [m |-> r.m, est |-> r.est, eft |-> r.eft]],
-         advRounds |-> j.advRounds,
+         advRounds |-> j.advRounds, advProv |-> j.advProv,
          perm |-> RangeOf(j.perm), canon |-> FALSE, seg |-> FALSE, api |-> j.api ]
 
 KM(seq) == [k \in {r.k : r \in RangeOf(seq)} |-> (CHOOSE r \in RangeOf(seq) : r.k = k).m]
